@@ -124,6 +124,10 @@ def run(ctx):
     sig.s15_5_version_alignment_sign(ctx, P)
     certificate_assembly(ctx, P)
     lock_after_backsig(ctx, P, sub)
+    # export / re-import of a generated key needs truthful lengths for every key-material type (R-len of C05, key types only)
+    from rules import c05
+    c05.r_len(ctx, P, only=r'crypto::\w+::SecretKey|types::params|packet::key|composed::signed_key|composed::key|types::mpi|PublicParams|SecretParams|types::s2k', floors=(70, 30))
+    c05.header_freshness(ctx, P)
 
 
 META = {'KeyFlags': 'keyflags', 'Features': 'features', 'PreferredSymmetricAlgorithms': 'preferred_symmetric_algorithms',
